@@ -22,9 +22,20 @@ pipeline of passes), the frame theorems over the 55-call alphabet `Edit3` (`*_ex
 Lemmas/CloneFrame3.lean: `sort` with subgraphs through property C12's `sortModel`, slices of graph
 inputs / outputs, `initializers.pop / clear / update`, `extend`, `remove(safe=True)`,
 `convenience.replace_all_uses_with` / `rename_values` / `replace_nodes_and_values`).
-Not proved (differential / oracle only): `deep_copy=True` copying the objects stored in `meta`,
-in-place state of shared `Attr` objects (D114) and shared tensors (D113), editing calls outside
-`Edit3`, the extended alphabets for clones made with `allow_outer_scope_values=True` (false by design).
+Round 4: `C13_wiring_image_function` / `C13_wiring_image_model` (Lemmas/CloneWireFM.lean: the image
+relation and the value-map bijection lifted to `Function.clone` and `Model.clone`, model-level
+fields, function keys and order) with `C13_faithful_function_of_wiring` / `C13_faithful_model_of_wiring`
+derived from them; `C13_deep_copy_meta_*` / `C13_shallow_meta_shared` (the refinement
+`IrVerif.Clone.Meta`, Model/CloneMeta.lean: the objects stored in `meta` as heap cells, `copy.deepcopy`
+with its memo, in-place edits of those objects); `C13_functionalize_hooks` (`requires()` / `ensures()`
+hooks that edit and raise, `modified` flags, `early_stop`); `C13_irregular_reasons*` /
+`C13_irregular_reachable` (Lemmas/CloneIrregular.lean: the three reasons for an `irregular` walker
+verdict, none of them a dangling pointer on a closed heap, the other two reachable through the public
+API and really breaking the guarded claims); the fourth editing alphabet `Edit4` (`*_ext4`).
+Not proved (differential / oracle only): in-place state of shared `Attr` objects (D114) and shared
+tensors (D113), `Attr.meta` / `Model.meta`, meta values that are not lists / dicts of atoms, editing
+calls outside `Edit4`, the extended alphabets for clones made with `allow_outer_scope_values=True`
+(false by design).
 -/
 import IrVerif.Lemmas.Clone
 import IrVerif.Lemmas.CloneFrame
@@ -37,6 +48,10 @@ import IrVerif.Lemmas.CloneTotal
 import IrVerif.Lemmas.CloneWire
 import IrVerif.Lemmas.CloneModelTotal
 import IrVerif.Lemmas.CloneFrame3
+import IrVerif.Lemmas.CloneWireFM
+import IrVerif.Lemmas.CloneIrregular
+import IrVerif.Lemmas.CloneMeta
+import IrVerif.Lemmas.CloneFrame4
 namespace IrVerif.Clone
 
 /-! ### what "the objects of a clone" are -/
@@ -2089,6 +2104,620 @@ example : isOk ((runHistory3 [.replaceNode 25 22 "m" "Abs" [some 16] ["t"]]
       (run (graphClone 4 false 0) exWorld).2).1.head!.map fun _ => 0) = true ∧
     inputsOfNodesNamed (runHistory3 [.replaceNode 25 22 "m" "Abs" [some 16] ["t"]]
       (run (graphClone 4 false 0) exWorld).2).2 "m" = [[some 16]] := by
+  decide +kernel
+
+/-! ### C13_wiring_image_function / C13_wiring_image_model (round 4)
+
+`Function.clone` runs `funcCloneCore` (Lemmas/CloneWireFM.lean) under a fresh cloner
+(`funcClone = withFreshMap funcCloneCore`, by definition), so the cloner's FINAL value map of a
+function clone is the `vm` component of the state `funcCloneCore` ends in.  `FuncWire w vm f f'`: same
+identifier (domain, name, overload), the body of `f'` is the `GraphWire`-image of the body of `f`, every
+attribute declaration is the shared object or a new object around graphs that are again images, all
+under the ONE value map `vm`.  `Model.clone` makes one cloner for the main graph and one per
+function; `ModelWire n0 w m m'` says: header fields and device configurations are equal,
+`metadata_props` has equal content, `meta` is empty (`Model.clone` does not copy it), the main graph
+is the image under its cloner's map, the functions correspond position by position - same keys,
+same order - and each is the image under ITS OWN cloner's map; each of these maps has pairwise
+different keys, is injective and sends equally observed values to value objects that did not exist
+before (`VmOk`). -/
+
+/-- **C13_wiring_image_function** (`Function.clone`; hypothesis: the walker accepts, `funcVerdict`).
+    The clone is the image of the function under the cloner's final value map `s'.vm` (body and
+    graph-valued attribute declarations, every nesting depth), every pair of the map relates values
+    with the same observation, and the map is a bijection between the values the function defines
+    (the walker's bound list, once each) and the value objects the clone created. -/
+theorem C13_wiring_image_function {w : World} {fuel f : Nat} {A : Sc} (h : funcVerdict fuel w f = .ok A) :
+    ∃ f' s', funcCloneCore fuel f { w := w } = (.ok f', s') ∧
+      run (funcClone fuel f) w = (.ok f', s'.w) ∧
+      FuncWire s'.w s'.vm f f' ∧ (∀ p ∈ s'.vm, ValSim s'.w p.1 p.2) ∧
+      s'.vm.map (·.1) = A.bound ∧ A.bound.Nodup ∧
+      (∀ p ∈ s'.vm, ∀ q ∈ s'.vm, p.2 = q.2 → p = q) ∧
+      (∀ p ∈ s'.vm, (∃ vs, w[p.1]? = some (.val vs)) ∧ w.length ≤ p.2 ∧
+        ∃ vs', s'.w[p.2]? = some (.val vs')) ∧
+      (∀ (i : Nat) (vs : ValueS), w.length ≤ i → s'.w[i]? = some (.val vs) → ∃ p ∈ s'.vm, p.2 = i) := by
+  obtain ⟨f', s', h1, h2, hW, hK, _, hT⟩ := funcClone_wiring h
+  refine ⟨f', s', h1, h2, hW, hK, hT.keys, hT.nodup, hT.inj, ?_, hT.onto⟩
+  intro p hp
+  obtain ⟨a, vs0, vs', b, c, _⟩ := hT.vals p hp
+  exact ⟨⟨vs0, b⟩, a, vs', c⟩
+
+/-- **C13_wiring_image_model** (`Model.clone`, hence the model `functionalize` hands to the wrapped
+    pass; hypothesis: the walker accepts, `modelVerdict` on the SOURCE heap).  The clone is returned
+    and is the image of the model (`ModelWire`): model-level fields equal, main graph and every
+    function the image of its source under that clone step's own value map, every such map a
+    bijection onto NEW value objects (`w.length ≤` target); nothing pre-existing changed (`CoreLe`
+    here, cell by cell in `C13_clone_pure_model`). -/
+theorem C13_wiring_image_model {w : World} {fuel m : Nat} (h : modelVerdict fuel w m = .ok ()) :
+    ∃ m' w', run (modelClone fuel m) w = (.ok m', w') ∧ ModelWire w.length w' m m' ∧ CoreLe w w' :=
+  modelClone_wiring h
+
+/-- **C13_model_function_keys**: the functions of the cloned model are filed under the same
+    identifiers in the same order as those of the source model. -/
+theorem C13_model_function_keys {n0 : Nat} {w : World} {m m' : Nat} (h : ModelWire n0 w m m') :
+    ∃ ms ms', cModel w m = some ms ∧ cModel w m' = some ms' ∧
+      ms'.funcs.map (funcKey w) = ms.funcs.map (funcKey w) := h.keys
+
+/-- **C13_faithful_function_of_wiring**: the observational simulation of `C13_faithful_function`
+    FOLLOWS from the wiring image of a function. -/
+theorem C13_faithful_function_of_wiring {w : World} {vm : List (Nat × Nat)} {f f' : Nat}
+    (hW : FuncWire w vm f f') (hK : ∀ p ∈ vm, ValSim w p.1 p.2) : FuncSim w f f' := hW.toSim hK
+
+/-- **C13_faithful_model_of_wiring**: model-level faithfulness (`ModelSim`, the conclusion of
+    `C13_faithful_model`) DERIVED from the wiring image: whenever the walker accepts the model,
+    `Model.clone` returns a model that is `ModelSim`-related to its source in the heap after cloning. -/
+theorem C13_faithful_model_of_wiring {w : World} {fuel m : Nat} (h : modelVerdict fuel w m = .ok ()) :
+    ∃ m' w', run (modelClone fuel m) w = (.ok m', w') ∧ ModelSim w' m m' := by
+  obtain ⟨m', w', h1, hW, _⟩ := modelClone_wiring h
+  exact ⟨m', w', h1, hW.toSim⟩
+
+/-- non-vacuity: the walker accepts the function and the model of `exModel` -/
+example : verdictKind (funcVerdict 4 exModel 25) = "ok" := by decide +kernel
+example : verdictKindU (modelVerdict 4 exModel 28) = "ok" := by decide +kernel
+
+/-! ### C13_functionalize_hooks: `requires()` / `ensures()` hooks and `early_stop` (round 4)
+
+`functionalizeHooks` (Model/Clone2.lean) extends `functionalizeAny`: every pass of the pipeline and
+the pipeline object itself have `requires` / `ensures` hooks - user code that is handed the model and
+may do to it whatever a pass may (any history of the 44 editing calls; a well-behaved hook does
+nothing) and then returns or raises (`PreconditionError` / `PostconditionError`) -, every pass reports
+a `modified` flag, and `PassManager(steps, early_stop)` stops after the first round that reports no
+modification.  The hooks of the wrapped pipeline are called by `PassBase.__call__` of the INNER pass,
+i.e. on the clone; `_FunctionalPassWrapper`'s own hooks are the no-op defaults of a private class. -/
+
+theorem runHook_snd (why : String) (h : Hook) (m : Nat) (w : World) :
+    (runHook why h m w).2 = (runHistory2 (h.edits m w) w).2 := by
+  unfold runHook; split <;> rfl
+
+theorem runHook_inv {B : Nat → Prop} {wB : World} (why : String) (h : Hook) (m : Nat) (w : World)
+    (hI : FInv true true B wB { w := w }) (ha : ∀ e ∈ h.edits m w, ArgsOut2 B e) :
+    FInv true true B wB { w := (runHook why h m w).2 } := by
+  rw [runHook_snd]; exact runHistory2_inv (strict := true) _ w hI ha
+
+theorem stageCall_inv {B : Nat → Prop} {wB : World} (st : Stage) (m : Nat) (w : World)
+    (hI : FInv true true B wB { w := w }) (ha : ∀ e ∈ st.edits m w, ArgsOut2 B e) :
+    FInv true true B wB { w := (stageCall st m w).2 } := by
+  have hed := runHistory2_inv (strict := true) (st.edits m w) w hI ha
+  unfold stageCall
+  cases st with
+  | inPlace edits => exact hed
+  | rewrap edits header =>
+    simp only [Stage.edits] at hed
+    have := (rewrapModel_frame header m hed).1
+    simp only [run]
+    exact this.restart
+
+/-- every editing call a pass makes - in `requires`, in `call`, in `ensures` - names objects outside `B` -/
+def PassH.ArgsOut (B : Nat → Prop) (p : PassH) : Prop :=
+  (∀ m w, ∀ e ∈ p.requires.edits m w, ArgsOut2 B e) ∧ (∀ m w, ∀ e ∈ p.stage.edits m w, ArgsOut2 B e) ∧
+    ∀ m w, ∀ e ∈ p.ensures.edits m w, ArgsOut2 B e
+
+theorem callPassH_inv {B : Nat → Prop} {wB : World} (p : PassH) (m : Nat) (w : World)
+    (hI : FInv true true B wB { w := w }) (ha : p.ArgsOut B) :
+    FInv true true B wB { w := (callPassH p m w).2 } := by
+  unfold callPassH
+  have i1 := runHook_inv "PreconditionError" p.requires m w hI (ha.1 m w)
+  rcases h1 : runHook "PreconditionError" p.requires m w with ⟨x1, w1⟩
+  rw [h1] at i1
+  cases x1 with
+  | error e => exact i1
+  | ok u1 =>
+    simp only
+    have i2 := stageCall_inv p.stage m w1 i1 (ha.2.1 m w1)
+    rcases h2 : stageCall p.stage m w1 with ⟨x2, w2⟩
+    rw [h2] at i2
+    cases x2 with
+    | error e => exact i2
+    | ok m1 =>
+      simp only
+      have i3 := runHook_inv "PostconditionError" p.ensures m1 w2 i2 (ha.2.2 m1 w2)
+      rcases h3 : runHook "PostconditionError" p.ensures m1 w2 with ⟨x3, w3⟩
+      rw [h3] at i3
+      cases x3 with
+      | error e => exact i3
+      | ok u3 =>
+        simp only
+        have h4 := callChecked_snd p.decl m (.ok m1, w3)
+        rcases h5 : callChecked p.decl m (.ok m1, w3) with ⟨x4, w4⟩
+        rw [h5] at h4
+        simp only at h4
+        subst h4
+        cases x4 <;> exact i3
+
+theorem runStagesH_inv {B : Nat → Prop} {wB : World} :
+    ∀ (ps : List PassH) (m : Nat) (md : Bool) (w : World), FInv true true B wB { w := w } →
+      (∀ p ∈ ps, p.ArgsOut B) → FInv true true B wB { w := (runStagesH ps m md w).2 }
+  | [], _, _, _, h, _ => h
+  | p :: rest, m, md, w, h, ha => by
+    have hst := callPassH_inv p m w h (ha p List.mem_cons_self)
+    unfold runStagesH
+    rcases hr : callPassH p m w with ⟨x, w1⟩
+    rw [hr] at hst
+    cases x with
+    | error e => exact hst
+    | ok r => exact runStagesH_inv rest r.1 (md || r.2) w1 hst (fun q hq => ha q (List.mem_cons_of_mem _ hq))
+
+theorem runRoundsH_inv {B : Nat → Prop} {wB : World} (ps : List PassH) (earlyStop : Bool)
+    (ha : ∀ p ∈ ps, p.ArgsOut B) :
+    ∀ (k m : Nat) (md : Bool) (w : World), FInv true true B wB { w := w } →
+      FInv true true B wB { w := (runRoundsH ps earlyStop k m md w).2 }
+  | 0, _, _, _, h => h
+  | k + 1, m, md, w, h => by
+    have hst := runStagesH_inv ps m false w h ha
+    unfold runRoundsH
+    rcases hr : runStagesH ps m false w with ⟨x, w1⟩
+    rw [hr] at hst
+    cases x with
+    | error e => exact hst
+    | ok r =>
+      simp only
+      split
+      · exact hst
+      · exact runRoundsH_inv ps earlyStop ha k r.1 (md || r.2) w1 hst
+
+/-- **C13_functionalize_hooks**.  `functionalize(P)(model)` for ANY pipeline `P` whose passes - and `P`
+    itself - have `requires()` / `ensures()` hooks that may edit the model they are handed and may
+    raise, with `PassManager`'s `steps` and `early_stop` driven by whatever `modified` flags the passes
+    report: the input model and everything else that existed before the call is unchanged, cell for
+    cell (except the name of shared tensor objects, D113), also when a hook, a stage or an identity
+    check raises half-way, and it stays so under every later history `es2` of editing calls on the
+    returned model's objects.  Supersedes `C13_functionalize_any` (hooks that do nothing and never
+    raise, `early_stop = false`). -/
+theorem C13_functionalize_hooks {w w' : World} {fuel m steps : Nat} {earlyStop : Bool} {r : Except Err Nat}
+    (ps : List PassH) (outerReq outerEns : Hook) (hwf : wellFormed w = true)
+    (h : functionalizeHooks fuel ps outerReq outerEns steps earlyStop m w = (r, w'))
+    (hargs : ∀ p ∈ ps, p.ArgsOut (Protected w))
+    (hreq : ∀ m' w1, ∀ e ∈ outerReq.edits m' w1, ∀ a ∈ e.args, ¬ Protected w a)
+    (hens : ∀ m' w1, ∀ e ∈ outerEns.edits m' w1, ∀ a ∈ e.args, ¬ Protected w a)
+    (es2 : List Edit2) (hargs2 : ∀ e ∈ es2, ∀ a ∈ e.args, ¬ Protected w a) :
+    ∀ i, Protected w i → (runHistory2 es2 w').2[i]? = w[i]? := by
+  unfold functionalizeHooks at h
+  rcases hrun : run (modelClone fuel m) w with ⟨r1, w1⟩
+  rw [hrun] at h
+  have hres := (CloneResult.of_good (fun s hI => modelClone_good fuel m hI) hrun).1
+  have hsep : ∀ (i : Nat) (c : Cell), ¬ Protected w i → w1[i]? = some c →
+      CellOutX true true (Protected w) c := by
+    intro i c hni hc
+    rcases Nat.lt_or_ge i w.length with hlt | hge
+    · have hct : ConstTarget w i := Classical.byContradiction (fun hn => hni ⟨hlt, hn⟩)
+      obtain ⟨nm, hnm⟩ := constTarget_tensor hwf hct
+      have := hres.oldEq rfl i _ hnm
+      rw [hc] at this
+      cases this
+      trivial
+    · exact cellOutX_of_cellOk (hres.cells i c hge hc)
+  have hI1 : FInv true true (Protected w) w1 { w := w1 } :=
+    ⟨fun i hi => Nat.lt_of_lt_of_le hi.1 hres.grows, fun _ _ => OptRel.refl _ _ _, hsep⟩
+  have hfin : FInv true true (Protected w) w1 { w := w' } := by
+    cases r1 with
+    | error e =>
+      simp only [Prod.mk.injEq] at h
+      obtain ⟨_, rfl⟩ := h
+      exact hI1
+    | ok m' =>
+      simp only at h
+      have i2 := runHook_inv "PreconditionError" outerReq m' w1 hI1 (hreq m' w1)
+      rcases h2 : runHook "PreconditionError" outerReq m' w1 with ⟨x2, w2⟩
+      rw [h2] at i2 h
+      cases x2 with
+      | error e =>
+        simp only [Prod.mk.injEq] at h
+        obtain ⟨_, rfl⟩ := h
+        exact i2
+      | ok u2 =>
+        simp only at h
+        have i3 := runRoundsH_inv ps earlyStop hargs steps m' false w2 i2
+        rcases h3 : runRoundsH ps earlyStop steps m' false w2 with ⟨x3, w3⟩
+        rw [h3] at i3 h
+        cases x3 with
+        | error e =>
+          simp only [Prod.mk.injEq] at h
+          obtain ⟨_, rfl⟩ := h
+          exact i3
+        | ok r3 =>
+          simp only at h
+          have i4 := runHook_inv "PostconditionError" outerEns r3.1 w3 i3 (hens r3.1 w3)
+          rcases h4 : runHook "PostconditionError" outerEns r3.1 w3 with ⟨x4, w4⟩
+          rw [h4] at i4 h
+          cases x4 with
+          | error e =>
+            simp only [Prod.mk.injEq] at h
+            obtain ⟨_, rfl⟩ := h
+            exact i4
+          | ok u4 =>
+            simp only at h
+            have := congrArg Prod.snd h
+            simp only [callChecked_snd] at this
+            rw [← this]
+            exact i4
+  have hfin2 := (runHistory2_inv (strict := true) es2 w' hfin hargs2).same
+  intro i hi
+  have h1 := hfin2 i hi
+  simp only at h1
+  have hold : w1[i]? = w[i]? := by
+    have := hres.oldEq rfl i _ (List.getElem?_eq_getElem hi.1)
+    rw [this, List.getElem?_eq_getElem hi.1]
+  rw [hold] at h1
+  cases hw : w[i]? with
+  | none =>
+    rw [hw] at h1
+    cases h2 : (runHistory2 es2 w').2[i]? with
+    | none => rfl
+    | some c => rw [h2] at h1; exact h1.elim
+  | some c0 =>
+    rw [hw] at h1
+    cases h2 : (runHistory2 es2 w').2[i]? with
+    | none => rw [h2] at h1; exact h1.elim
+    | some c =>
+      rw [h2] at h1
+      have : c = c0 := by simpa [OptRel, CellRel] using h1
+      rw [this]
+
+/-- non-vacuity on `exModel`: a pipeline whose `requires` hook edits the model it is handed (the
+    clone) and whose `ensures` hook raises: the call ends with `PostconditionError`, the clone's graph
+    was edited, nothing else -/
+def exReqEdits (m : Nat) (w : World) : List Edit2 :=
+  match w[m]? with
+  | some (.model ms) => [.base (.setGraphDoc ms.graph (some "seen by requires"))]
+  | _ => []
+
+def exHookPass : PassH where
+  decl := ⟨true, true⟩
+  requires := ⟨exReqEdits, fun _ _ => false⟩
+  stage := .inPlace (fun _ _ => [])
+  ensures := ⟨fun _ _ => [], fun _ _ => true⟩
+  modified := fun _ _ => false
+
+def noHook : Hook := ⟨fun _ _ => [], fun _ _ => false⟩
+
+
+def errKind : Except Err Nat → String
+  | .ok _ => "ok"
+  | .error (.raised why) => "raised: " ++ why
+  | .error (.unsupported why) => "unsupported: " ++ why
+  | .error .fuel => "fuel"
+
+example : errKind (functionalizeHooks 4 [exHookPass] noHook noHook 3 true 28 exModel).1 =
+    "raised: PostconditionError" := by decide +kernel
+example : graphDocs (functionalizeHooks 4 [exHookPass] noHook noHook 3 true 28 exModel).2 =
+    [none, none, some "seen by requires", none] := by decide +kernel
+/-- `early_stop`: a pass that reports `modified = False` ends `PassManager(steps=3)` after one round -/
+example : isOk (functionalizeHooks 4 [{ exHookPass with ensures := noHook }] noHook noHook 3 true 28 exModel).1 = true := by
+  decide +kernel
+
+/-! ### C13_irregular_*: when the walker makes no claim (round 4)
+
+The walker answers `irregular` for exactly three reasons (Lemmas/CloneIrregular.lean): a pointer that
+names no cell, a node output that the value map binds already when its node is cloned, initializer
+names that are not pairwise different.  The first is impossible on a heap whose pointer fields all
+name cells (`closedW`, decidable, evaluated on every abstracted heap).  The other two DO occur on
+well-formed heaps - and with the real library, through the public API: a `GraphView` that lists the
+output of one of its own nodes among its inputs, and a `GraphView` whose initializer keys went stale
+because a value was renamed after the view was made.  There the clone is returned but the claims
+the walker guards really fail (the value map is no bijection / the clone has fewer initializers):
+`irregular` is not an artefact of the proof. -/
+
+/-- **C13_irregular_reasons** (`Graph.clone` / `GraphView.clone`): the three reasons; no dangling
+    pointer on a closed heap. -/
+theorem C13_irregular_reasons {w : World} {fuel : Nat} {allow : Bool} {g : Nat} {why : String}
+    (hg : g < w.length) (h : cloneVerdict fuel allow w g = .irregular why) :
+    why = "node output is already bound in the value map" ∨ why = "initializer names not distinct" ∨
+      (why = "dangling pointer" ∧ closedW w = false) :=
+  Irr.irr_wGraph allow fuel g {} (fun _ => hg) why h
+
+/-- **C13_irregular_reasons_function** (`Function.clone`). -/
+theorem C13_irregular_reasons_function {w : World} {fuel f : Nat} {why : String}
+    (hf : f < w.length) (h : funcVerdict fuel w f = .irregular why) :
+    why = "node output is already bound in the value map" ∨ why = "initializer names not distinct" ∨
+      (why = "dangling pointer" ∧ closedW w = false) :=
+  Irr.irr_funcVerdict fuel f (fun _ => hf) why h
+
+/-- **C13_irregular_reasons_model** (`Model.clone`). -/
+theorem C13_irregular_reasons_model {w : World} {fuel m : Nat} {why : String}
+    (hm : m < w.length) (h : modelVerdict fuel w m = .irregular why) :
+    why = "node output is already bound in the value map" ∨ why = "initializer names not distinct" ∨
+      (why = "dangling pointer" ∧ closedW w = false) :=
+  Irr.irr_modelVerdict fuel m (fun _ => hm) why h
+
+/-- a view (cell 18) of both nodes of `exNonLocal`'s graph that lists `va`, the output of its own
+    node `a`, among its inputs: `GraphView([x, va], [vb], nodes=[a, b])` -/
+def exOwnOutput : World := exNonLocal.take 18 ++ [
+  .graph { name := some "v", inputs := [3, 9], outputs := [15], nodes := [6, 12], props := 19, mstore := 20, view := true },
+  .dict {}, .dict {} ]
+
+/-- a graph with initializer `w1` (cell 3) and a view (cell 15) made with initializers `[w1, w2]`
+    whose second value (cell 6) was renamed to `w1` afterwards: the view's keys are stale -/
+def exStaleKey : World := [
+  .graph { name := some "g", outputs := [12], nodes := [9], inits := [("w1", 3)], props := 1, mstore := 2 },
+  .dict {}, .dict {},
+  .val { name := some "w1", graph := some 0, isInit := true, uses := [(9, 0)], props := 4, mstore := 5 },
+  .dict {}, .dict {},
+  .val { name := some "w1", uses := [(9, 1)], props := 7, mstore := 8 },
+  .dict {}, .dict {},
+  .node { name := some "n", opType := "Add", inputs := [some 3, some 6], outputs := [12], graph := some 0,
+          props := 10, mstore := 11 },
+  .dict {}, .dict {},
+  .val { name := some "o", producer := some 9, index := some 0, graph := some 0, isOut := true,
+         props := 13, mstore := 14 },
+  .dict {}, .dict {},
+  .graph { name := some "v", outputs := [12], nodes := [9], inits := [("w1", 3), ("w2", 6)], props := 16,
+           mstore := 17, view := true },
+  .dict {}, .dict {} ]
+
+def initCounts (w : World) : List Nat :=
+  w.filterMap fun c => match c with
+    | .graph g => some g.inits.length
+    | _ => none
+
+/-- **C13_irregular_reachable**: `irregular` verdicts occur on heaps without any dangling pointer
+    (`wellFormed2`, `closedW`), the clone is returned there, and the guarded claims fail: (1) a view
+    listing an output of one of its own nodes among its inputs - the cloner's final value map binds
+    that value twice (the graph-input clone is overwritten by the node-output clone: no bijection);
+    (2) a view with stale initializer keys - the clone has ONE initializer where the source has two
+    (finding D346: `Graph(initializers=...)` files the clones under their names). -/
+theorem C13_irregular_reachable :
+    (wellFormed2 exOwnOutput = true ∧ closedW exOwnOutput = true ∧
+      verdictKind (cloneVerdict 4 false exOwnOutput 18) = "irregular: node output is already bound in the value map" ∧
+      isOk (run (graphClone 4 false 18) exOwnOutput).1 = true ∧
+      ¬ ((cloneGraph false 4 18 { w := exOwnOutput }).2.vm.map (·.1)).Nodup) ∧
+    (wellFormed2 exStaleKey = true ∧ closedW exStaleKey = true ∧
+      verdictKind (cloneVerdict 4 false exStaleKey 15) = "irregular: initializer names not distinct" ∧
+      isOk (run (graphClone 4 false 15) exStaleKey).1 = true ∧
+      initCounts (run (graphClone 4 false 15) exStaleKey).2 = [1, 2, 1]) := by
+  decide +kernel
+
+/-- non-vacuity of `closedW`: the example heaps are closed -/
+example : closedW exWorld = true ∧ closedW exModel = true ∧ closedW exNonLocal = true := by decide +kernel
+
+/-! ### C13_deep_copy_meta_*: `deep_copy=True` copies the objects stored in `meta` (round 4)
+
+In `IrVerif.Clone` the values stored in a `meta` store are opaque atoms, so `deep_copy` is invisible
+there.  `IrVerif.Clone.Meta` (Model/CloneMeta.lean, Lemmas/CloneMeta.lean) refines exactly that:
+the stored values are references into a heap of mutable Python containers (`list` / `dict` cells,
+immutable leaves as atoms), `Cloner.clone_meta(old, new, deep_copy)` is transcribed with CPython's
+`copy.deepcopy` (memo per call, i.e. per KEY), and `PyEdit` is the alphabet of in-place edits of
+such objects.  DECISION on `deep_copy=False` (the default, also what `functionalize` uses): the
+property statement demands that "metadata CONTAINERS are new objects" - containers, not contents.
+The clone's `MetadataStore` is a new container (a new `dict` cell in `IrVerif.Clone`: `C13_fresh`),
+`meta[k] = x` / `del` / `invalidate` on one copy never show in the other (`C13_frame`); that the
+stored OBJECTS are shared is the documented meaning of `deep_copy=False` (like tensors), stated
+as `C13_shallow_meta_shared` with a witness that an in-place edit through one store is then visible
+through the other, and counted by the check as `observation=meta-shared:*`, not as a violation. -/
+
+/-- **C13_deep_copy_meta_fresh**: after `clone_meta(.., deep_copy=True)` - all heaps, stores, fuel -
+    no pre-existing object changed, every object reachable from the clone's store is a NEW object,
+    keys (in order) and invalid keys are the source's, atoms stay the same atoms. -/
+theorem C13_deep_copy_meta_fresh (fuel : Nat) (st st' : Meta.Store) (h h' : Meta.PyHeap)
+    (hc : Meta.cloneMeta true fuel st h = .ok (st', h')) :
+    (∃ ext, h' = h ++ ext) ∧
+    (∀ k i, (k, Meta.PyVal.ref i) ∈ st'.data → h.length ≤ i) ∧
+    (∀ i o, h.length ≤ i → h'[i]? = some o → ∀ j, Meta.PyVal.ref j ∈ o.vals → h.length ≤ j) ∧
+    (∀ i, Meta.Reach h' (st'.data.map (·.2)) i → h.length ≤ i) ∧
+    st'.data.map (·.1) = st.data.map (·.1) ∧ st'.invalid = st.invalid ∧
+    Meta.All2 (fun e e' => e'.1 = e.1 ∧ ∀ s, e.2 = .atom s ↔ e'.2 = .atom s) st.data st'.data :=
+  Meta.deep_copy_meta_fresh fuel st st' h h' hc
+
+/-- **C13_deep_copy_meta_fresh_all**: the same for all the `meta` stores of a cloned IR object, in the
+    cloner's order, whatever aliasing there was between keys and between stores. -/
+theorem C13_deep_copy_meta_fresh_all (fuel : Nat) (ss ss' : List Meta.Store) (h h' : Meta.PyHeap)
+    (hc : Meta.cloneMetaAll true fuel ss h = .ok (ss', h')) :
+    (∃ ext, h' = h ++ ext) ∧
+    (∀ i o, h.length ≤ i → h'[i]? = some o → ∀ j, Meta.PyVal.ref j ∈ o.vals → h.length ≤ j) ∧
+    (∀ i, Meta.Reach h' (Meta.rootsOf ss') i → h.length ≤ i) ∧
+    Meta.All2 (fun s s' => s'.data.map (·.1) = s.data.map (·.1) ∧ s'.invalid = s.invalid ∧
+      Meta.All2 (fun e e' => e'.1 = e.1 ∧ ∀ a, e.2 = .atom a ↔ e'.2 = .atom a) s.data s'.data) ss ss' :=
+  Meta.deep_copy_meta_fresh_all fuel ss ss' h h' hc
+
+/-- **C13_deep_copy_meta_frame**: every history of in-place edits of objects the deep clone created
+    leaves every pre-existing object unchanged, so the original's stored values observe alike. -/
+theorem C13_deep_copy_meta_frame (fuel : Nat) (st st' : Meta.Store) (h h' : Meta.PyHeap)
+    (hc : Meta.cloneMeta true fuel st h = .ok (st', h')) (es : List Meta.PyEdit)
+    (ht : ∀ e ∈ es, h.length ≤ e.target) :
+    (∀ i, i < h.length → (Meta.runPyHistory es h')[i]? = h[i]?) ∧
+    ∀ v, (∀ i, Meta.Reach h [v] i → i < h.length) → ∀ k,
+      Meta.obs k (Meta.runPyHistory es h') v = Meta.obs k h v :=
+  Meta.deep_copy_meta_frame fuel st st' h h' hc es ht
+
+/-- **C13_deep_copy_meta_frame_reach**: the same with the edited objects given as "whatever is reachable
+    from the clone's store at the time of the edit" (values written: atoms or such objects). -/
+theorem C13_deep_copy_meta_frame_reach (fuel : Nat) (st st' : Meta.Store) (h h' : Meta.PyHeap)
+    (hc : Meta.cloneMeta true fuel st h = .ok (st', h')) (es : List Meta.PyEdit)
+    (hh : Meta.ReachHistory (st'.data.map (·.2)) es h') :
+    (∀ i, i < h.length → (Meta.runPyHistory es h')[i]? = h[i]?) ∧
+    ∀ v, (∀ i, Meta.Reach h [v] i → i < h.length) → ∀ k,
+      Meta.obs k (Meta.runPyHistory es h') v = Meta.obs k h v :=
+  Meta.deep_copy_meta_frame_reach fuel st st' h h' hc es hh
+
+/-- **C13_deep_copy_meta_frame_all**: the same for all the stores of a cloned IR object. -/
+theorem C13_deep_copy_meta_frame_all (fuel : Nat) (ss ss' : List Meta.Store) (h h' : Meta.PyHeap)
+    (hc : Meta.cloneMetaAll true fuel ss h = .ok (ss', h')) (es : List Meta.PyEdit)
+    (hh : Meta.ReachHistory (Meta.rootsOf ss') es h') :
+    (∀ i, i < h.length → (Meta.runPyHistory es h')[i]? = h[i]?) ∧
+    ∀ v, (∀ i, Meta.Reach h [v] i → i < h.length) → ∀ k,
+      Meta.obs k (Meta.runPyHistory es h') v = Meta.obs k h v :=
+  Meta.deep_copy_meta_frame_all fuel ss ss' h h' hc es hh
+
+/-- **C13_deep_copy_meta_faithful**: the deep clone's store observes (to every depth) like the source
+    store, on a heap without dangling references (decidable: `heapClosedB`, `storeOkB`; evaluated on
+    every generated case). -/
+theorem C13_deep_copy_meta_faithful (fuel : Nat) (st st' : Meta.Store) (h h' : Meta.PyHeap)
+    (hwf : Meta.HeapClosed h) (hst : ∀ k j, (k, Meta.PyVal.ref j) ∈ st.data → j < h.length)
+    (hc : Meta.cloneMeta true fuel st h = .ok (st', h')) :
+    ∀ k, Meta.obsStore k h' st' = Meta.obsStore k h st :=
+  Meta.deep_copy_meta_faithful fuel st st' h h' hwf hst hc
+
+/-- **C13_shallow_meta_shared** (`deep_copy=False`): a new store with the same keys and invalid keys,
+    the heap untouched, every stored object THE SAME object (see the decision above). -/
+theorem C13_shallow_meta_shared (fuel : Nat) (st : Meta.Store) (h : Meta.PyHeap) :
+    ∃ st', Meta.cloneMeta false fuel st h = .ok (st', h) ∧ st'.data = st.data ∧ st'.invalid = st.invalid :=
+  Meta.shallow_meta_shared fuel st h
+
+end IrVerif.Clone
+
+/-! ### C13_frame over the fourth alphabet `Edit4` (round 4)
+
+`Edit4` (Model/Clone4.lean) = the 55 calls of `Edit3` plus the item-level calls on `graph.inputs` and
+`graph.outputs` (`insert(i, v)`, `remove(v)`, `del lst[i]`, `lst[i] = v`, `extend(vs)`, `clear()`, any
+index, negative too), `graph.initializers.setdefault(k, v)`, slices with any bounds and any step
+(`lst[a:b:s] = vs`, `del lst[a:b:s]`; CPython's `slice.indices`, the size check of extended slices, the
+zero step) and `convenience.replace_nodes_and_values` with SEVERAL old nodes and SEVERAL freshly built
+new nodes (a later new node may consume outputs of an earlier one; generalises `Edit3.replaceNode`):
+72 calls.  The frame lemma `applyEdit4_frame` (Lemmas/CloneFrame4.lean) is proved by composition from
+the pieces of the older alphabets. -/
+namespace IrVerif.Clone
+
+/-- **C13_frame_ext4** (general form, fourth alphabet): see `Frame4.frame_ext4`. -/
+theorem C13_frame_ext4 (B : Nat → Prop) (w : World) (es : List Edit4)
+    (hb : ∀ i, B i → i < w.length)
+    (hsep : ∀ (i : Nat) (c : Cell), ¬ B i → w[i]? = some c → CellOutX true true B c)
+    (hargs : ∀ e ∈ es, ∀ a ∈ e.args, ¬ B a) :
+    ∀ i, B i → (runHistory4 es w).2[i]? = w[i]? :=
+  Frame4.frame_ext4 B w es hb hsep hargs
+
+theorem frame_clone_edited_ext4 {w w' : World} (hwf : wellFormed w = true) (hres : CloneResult w false w')
+    (es : List Edit4) (hargs : ∀ e ∈ es, ∀ a ∈ e.args, ¬ Protected w a) :
+    ∀ i, Protected w i → (runHistory4 es w').2[i]? = w[i]? := by
+  intro i hi
+  have hsep : ∀ (i : Nat) (c : Cell), ¬ Protected w i → w'[i]? = some c →
+      CellOutX true true (Protected w) c := by
+    intro i c hni hc
+    rcases Nat.lt_or_ge i w.length with hlt | hge
+    · have hct : ConstTarget w i := Classical.byContradiction (fun hn => hni ⟨hlt, hn⟩)
+      obtain ⟨nm, hnm⟩ := constTarget_tensor hwf hct
+      have := hres.oldEq rfl i _ hnm
+      rw [hc] at this
+      cases this
+      trivial
+    · exact cellOutX_of_cellOk (hres.cells i c hge hc)
+  have := C13_frame_ext4 (Protected w) w' es (fun i hi => Nat.lt_of_lt_of_le hi.1 hres.grows) hsep hargs i hi
+  rw [this]
+  exact hres.oldEq rfl i _ (List.getElem?_eq_getElem hi.1) ▸ (List.getElem?_eq_getElem hi.1).symm ▸ rfl
+
+/-- **C13_frame_clone_edited_ext4** (`Graph.clone()`, `GraphView.clone()`): after cloning, every
+    history of the 72 editing calls applied to objects that did not exist before leaves every
+    pre-existing cell (except the shared tensor objects) exactly as it was before cloning. -/
+theorem C13_frame_clone_edited_ext4 {w w' : World} {fuel g : Nat} {r : Except Err Nat}
+    (hwf : wellFormed w = true)
+    (h : run (graphClone fuel false g) w = (r, w')) (es : List Edit4)
+    (hargs : ∀ e ∈ es, ∀ a ∈ e.args, ¬ Protected w a) :
+    ∀ i, Protected w i → (runHistory4 es w').2[i]? = w[i]? :=
+  frame_clone_edited_ext4 hwf (CloneResult.of_good (fun s hI => graphClone_good fuel g hI) h).1 es hargs
+
+/-- **C13_functionalize_ext4**: `C13_functionalize` for wrapped passes that use the fourth alphabet
+    (`functionalize4`). -/
+theorem C13_functionalize_ext4 {w w' : World} {fuel m : Nat} {r : Except Err Nat}
+    (pass : Nat → World → List Edit4) (hwf : wellFormed w = true)
+    (h : functionalize4 fuel pass m w = (r, w'))
+    (hargs : ∀ m' w1, ∀ e ∈ pass m' w1, ∀ a ∈ e.args, ¬ Protected w a) :
+    ∀ i, Protected w i → w'[i]? = w[i]? := by
+  unfold functionalize4 at h
+  rcases hrun : run (modelClone fuel m) w with ⟨r1, w1⟩
+  rw [hrun] at h
+  have hres := (CloneResult.of_good (fun s hI => modelClone_good fuel m hI) hrun).1
+  cases r1 with
+  | ok m' =>
+    simp only [Prod.mk.injEq] at h
+    obtain ⟨_, rfl⟩ := h
+    exact frame_clone_edited_ext4 hwf hres (pass m' w1) (hargs m' w1)
+  | error e =>
+    simp only [Prod.mk.injEq] at h
+    obtain ⟨_, rfl⟩ := h
+    intro i hi
+    exact hres.oldEq rfl i _ (List.getElem?_eq_getElem hi.1) ▸ (List.getElem?_eq_getElem hi.1).symm ▸ rfl
+
+theorem frame_orig_edited_ext4 {w w' : World} (hwf : wellFormed2 w = true) (hres : CloneResult w false w')
+    (es : List Edit4) (hargs : ∀ e ∈ es, ∀ a ∈ e.args, ¬ (w.length ≤ a ∧ a < w'.length)) :
+    ∀ i, w.length ≤ i → i < w'.length → (runHistory4 es w').2[i]? = w'[i]? := by
+  intro i h1 h2
+  refine C13_frame_ext4 (fun i => w.length ≤ i ∧ i < w'.length) w' es (fun i hi => hi.2) ?_ hargs i ⟨h1, h2⟩
+  intro j c hj hc
+  have hjlt : j < w.length := by
+    have := lt_of_getElem? hc
+    rcases Nat.lt_or_ge j w.length with h | h
+    · exact h
+    · exact absurd ⟨h, this⟩ hj
+  have heq := hres.oldEq rfl j _ (List.getElem?_eq_getElem hjlt)
+  rw [hc] at heq
+  cases heq
+  obtain ⟨hwf1, hf2⟩ := wellFormed2_spec hwf (List.getElem?_eq_getElem hjlt)
+  apply cellOutX_of_followed
+  · intro p hp hB
+    have := wellFormed_spec hwf1 (List.getElem?_eq_getElem hjlt) p hp
+    omega
+  · intro p hp hB
+    have := hf2 p hp
+    omega
+
+/-- **C13_frame_orig_edited_ext4** (`Graph.clone()` / `GraphView.clone()` with
+    `allow_outer_scope_values=False`): every history of the 72 editing calls whose receivers and
+    arguments are not objects created by the clone leaves every cell created by the clone exactly
+    as it was. -/
+theorem C13_frame_orig_edited_ext4 {w w' : World} {fuel g : Nat} {r : Except Err Nat}
+    (hwf : wellFormed2 w = true)
+    (h : run (graphClone fuel false g) w = (r, w')) (es : List Edit4)
+    (hargs : ∀ e ∈ es, ∀ a ∈ e.args, ¬ (w.length ≤ a ∧ a < w'.length)) :
+    ∀ i, w.length ≤ i → i < w'.length → (runHistory4 es w').2[i]? = w'[i]? :=
+  frame_orig_edited_ext4 hwf (CloneResult.of_good (fun s hI => graphClone_good fuel g hI) h).1 es hargs
+
+/-- **C13_frame_orig_edited_model_ext4** (`Model.clone()`, hence `functionalize`). -/
+theorem C13_frame_orig_edited_model_ext4 {w w' : World} {fuel m : Nat} {r : Except Err Nat}
+    (hwf : wellFormed2 w = true)
+    (h : run (modelClone fuel m) w = (r, w')) (es : List Edit4)
+    (hargs : ∀ e ∈ es, ∀ a ∈ e.args, ¬ (w.length ≤ a ∧ a < w'.length)) :
+    ∀ i, w.length ≤ i → i < w'.length → (runHistory4 es w').2[i]? = w'[i]? :=
+  frame_orig_edited_ext4 hwf (CloneResult.of_good (fun s hI => modelClone_good fuel m hI) h).1 es hargs
+
+/-- a history of the new calls on the clone of `exWorld` (clone cells: 16 value `x`, 21 value `y`,
+    22 the node `n`, 25 the graph): every receiver and argument is a cell created by the clone -/
+def exHistory4 : List Edit4 :=
+  [.ioInsert true 25 (-1) 16, .ioSetStep true 25 none none (-1) [16, 16], .ioDelStep true 25 (some 0) none 2,
+   .ioRemove true 25 16, .ioExtend true 25 [16], .ioSetAt false 25 (-1) 21, .ioDelAt false 25 0,
+   .ioInsert false 25 5 21, .ioClear true 25, .setdefaultInit 25 "x" 16,
+   .replaceNodes 25 22 [22] [⟨"m1", "Abs", [.old 16], ["t"]⟩, ⟨"m2", "Neg", [.fresh 0 0], ["u"]⟩] [21] [(1, 0)]]
+
+example : ∀ e ∈ exHistory4, ∀ a ∈ e.args, exWorld.length ≤ a := by decide +kernel
+
+/-- every call of the history succeeds on the clone ... -/
+example : (runHistory4 exHistory4 (run (graphClone 4 false 0) exWorld).2).1.all
+    (fun r => isOk (r.map fun _ => 0)) = true := by
+  decide +kernel
+
+/-- ... really changes the clone (the new node `m2` consumes the output of the new node `m1`, which
+    consumes the clone's `x`; `x` is now an initializer of the clone) ... -/
+example : (inputsOfNodesNamed (runHistory4 exHistory4 (run (graphClone 4 false 0) exWorld).2).2 "m1" = [[some 16]]) ∧
+    (inputsOfNodesNamed (runHistory4 exHistory4 (run (graphClone 4 false 0) exWorld).2).2 "m2").length = 1 ∧
+    (runHistory4 exHistory4 (run (graphClone 4 false 0) exWorld).2).2 ≠ (run (graphClone 4 false 0) exWorld).2 := by
+  decide +kernel
+
+/-- ... and leaves the original's cells as they were (the conclusion of `C13_frame_clone_edited_ext4`,
+    evaluated) -/
+example : (runHistory4 exHistory4 (run (graphClone 4 false 0) exWorld).2).2.take exWorld.length = exWorld := by
+  decide +kernel
+
+/-- the error points: a zero step, an extended slice of another size, an index out of range, a value
+    that is not listed -/
+example : (runHistory4 [.ioSetStep true 25 none none 0 [], .ioSetStep true 25 none none 2 [16, 16],
+      .ioDelAt true 25 7, .ioRemove false 25 16] (run (graphClone 4 false 0) exWorld).2).1.map
+      (fun r => isOk (r.map fun _ => 0)) = [false, false, false, false] := by
   decide +kernel
 
 end IrVerif.Clone
